@@ -86,6 +86,301 @@ def run_pair(progs, max_stack=500, fuel=4000, traces=True, extra=0.0, rng=None, 
 
 
 # ---------------------------------------------------------------------------
+# The whole-pipeline model (op `pipe`): the very source text the implementation evaluates is lexed, parsed,
+# lowered, analysed and evaluated by the Lean models (lean/RsjModel/Pipeline.lean).  Three-way agreement:
+# implementation / model via S-expression (Python printer `G.to_sexp`) / model via source text (`G.to_jsonnet`
+# + Lean lexer, parser, lowering).  A difference between the last two pinpoints a printer or a lowering bug.
+# ---------------------------------------------------------------------------
+
+import re
+import time
+
+_EXPECTED = re.compile(r'expected: \{(.*)\}, instead: (.*) \}$')
+
+
+def _tok_names(txt):
+    """Rust Debug of ExpectedToken / ActualToken -> the model's notation (RsjModel/Parser.lean `Expected.show`)"""
+    out = []
+    for w in [x.strip() for x in txt.split(', ') if x.strip()]:
+        m = re.match(r'^Simple\((\w+)\)$', w)
+        if m:
+            out.append('S' + m.group(1))
+        elif w == 'EndOfFile':
+            out.append('Eof')
+        elif re.match(r'^(OtherOp|Ident)\("(.*)"\)$', w):
+            m = re.match(r'^(OtherOp|Ident)\("(.*)"\)$', w)
+            out.append(('O' if m.group(1) == 'OtherOp' else 'I') + vlib.hx(m.group(2)))
+        else:
+            out.append(w)
+    return out
+
+
+def norm_static(ans):
+    """Answers of the stages before evaluation.  Lexical errors: kind only (the implementation's detail is Rust
+    Debug text with opaque span ids).  Syntax errors: kind, the set of expected tokens and the token found."""
+    w = ans.split(' ')
+    if len(w) >= 3 and w[0] == 'err' and w[1] == 'lex':
+        return 'err lex ' + w[2]
+    if len(w) >= 4 and w[0] == 'err' and w[1] == 'parse':
+        d = vlib.unhx(w[3]).decode('utf-8', 'replace')
+        m = _EXPECTED.search(d)
+        if m:       # implementation: Expected { span: SpanId(n), expected: {A, B}, instead: C }
+            ex = _tok_names(m.group(1))
+            act = _tok_names(m.group(2))
+            return 'err parse %s %s;%s' % (w[2], ','.join(ex) if ex else '-', act[0] if act else '?')
+        parts = d.split(';')
+        if len(parts) == 3:    # model: start:stop;A,B;C
+            return 'err parse %s %s;%s' % (w[2], parts[1], parts[2])
+        return 'err parse ' + w[2]
+    return ans
+
+
+def norm_src(ans):
+    return norm_static(norm(ans))
+
+
+def pipe_line(src, max_stack=500, fuel=4000, traces=True):
+    return 'pipe %d %d %d %s' % (max_stack, fuel, 1 if traces else 0, vlib.hx(src))
+
+
+def _pipe_stats(rep):
+    return rep.extra.setdefault('pipeline', {'programs': 0, 'answered': 0, 'unsupported': 0, 'gas': 0, 'static_errors': 0,
+                                             'model_seconds': 0.0, 'sampled_share': {}})
+
+
+def check_pipe(rep, prefix, srcs, io, mo=None, max_stack=500, fuel=4000, traces=True, share=1.0, label=None):
+    """Send the source texts `srcs` (whose implementation answers, after `canon_impl`, are `io`) through the
+    pipeline model and compare: implementation vs pipeline (`rep.disagreement`), and, where `mo` (the answers of
+    op `core` on the S-expression of the same trees) is given, S-expression route vs source route.
+    `share` < 1: only that share of the programs (drawn from rep.rng) is sent (quick-tier budget).
+    Returns the pipeline answers (None where not sampled)."""
+    st = _pipe_stats(rep)
+    idx = [i for i in range(len(srcs)) if share >= 1.0 or rep.rng.random() < share]
+    st['sampled_share'][label or prefix] = round(len(idx) / max(1, len(srcs)), 3)
+    t0 = time.time()
+    per = isinstance(max_stack, (list, tuple))     # one frame limit per program
+    res = vlib.model([pipe_line(srcs[i], max_stack[i] if per else max_stack, fuel, traces) for i in idx]) if idx else []
+    st['model_seconds'] = round(st['model_seconds'] + time.time() - t0, 2)
+    po = [None] * len(srcs)
+    for i, c in zip(idx, res):
+        po[i] = c
+        s, a = srcs[i], io[i]
+        b = mo[i] if mo is not None else None
+        ms = max_stack[i] if per else max_stack
+        st['programs'] += 1
+        if isinstance(s, bytes):      # a source that need not be UTF-8: the replay record carries the bytes in hex
+            rec = {'src': s.decode('utf-8', 'replace'), 'srchex': s.hex()}
+            key = prefix + 'pipe:' + s.hex()
+        else:
+            rec = {'src': s}
+            key = prefix + 'pipe:' + s
+        if c.startswith('unsupported'):
+            st['unsupported'] += 1
+            rep.bump('pipe:unsupported')
+            continue
+        if c.startswith('gas'):
+            st['gas'] += 1
+            rep.bump('pipe:gas')
+            continue
+        st['answered'] += 1
+        if c.startswith('err lex') or c.startswith('err parse') or c.startswith('err analyze'):
+            st['static_errors'] += 1
+        rep.bump('pipe:' + ('static-error' if c.startswith('err') and not c.startswith('err eval') else c.split(' ')[0]))
+        if a.startswith('panic') or a.startswith('crash'):
+            continue    # reported by the caller as a violation
+        if norm_src(a) != norm_src(c):
+            rep.disagreement(key, 'implementation and pipeline model (lexer+parser+lowering+analysis+evaluator on the source text) disagree',
+                             dict(rec, max_stack=ms, fuel=fuel, traces=1 if traces else 0, impl=a, pipe=c, model=b))
+            continue
+        if b is not None and not (b.startswith('unsupported') or b.startswith('gas')) and (c.startswith('ok') or c.startswith('err eval')):
+            if norm(b) != norm(c):
+                rep.disagreement(key, 'model via S-expression and model via source text disagree (printer or lowering)',
+                                 dict(rec, max_stack=ms, fuel=fuel, traces=1 if traces else 0, impl=a, pipe=c, model=b))
+    if st['programs']:
+        st['supported_share'] = round(st['answered'] / st['programs'], 4)
+        st['seconds_per_1000'] = round(1000.0 * st['model_seconds'] / st['programs'], 2)
+    return po
+
+
+def run_pair_src(rep, prefix, progs, max_stack=500, fuel=4000, traces=True, extra=0.0, rng=None, ws=False, share=1.0):
+    """`run_pair` + the pipeline model on the same source texts: (srcs, io, mo, po)."""
+    srcs, io, mo = run_pair(progs, max_stack=max_stack, fuel=fuel, traces=traces, extra=extra, rng=rng, ws=ws)
+    po = check_pipe(rep, prefix, srcs, io, mo, max_stack=max_stack, fuel=fuel, traces=traces, share=share)
+    return srcs, io, mo, po
+
+
+def replay_pipe(rp, a=None):
+    """Re-run the pipeline model on a replay record's source; prints it; returns 1 on a difference with `a`."""
+    if 'pipe' not in rp:
+        return 0
+    src = bytes.fromhex(rp['srchex']) if 'srchex' in rp else rp['src']
+    if rp.get('load'):
+        c = vlib.model(['pipe load ' + vlib.hx(src)])[0]
+    else:
+        c = vlib.model([pipe_line(src, rp.get('max_stack', 500), rp.get('fuel', 6000), bool(rp.get('traces', 1)))])[0]
+    print('pipe :', c)
+    if a is None or c.startswith('unsupported') or c.startswith('gas'):
+        return 0
+    return 1 if norm_src(a) != norm_src(c) else 0
+
+
+def check_pipe_load(rep, prefix, srcs, io, label=None):
+    """Static stages only: the implementation's `eval <src> load=1` answers `io` ('ok' | 'err lex|parse|analyze ..')
+    against `pipe load <src>`."""
+    st = _pipe_stats(rep)
+    t0 = time.time()
+    res = vlib.model(['pipe load ' + vlib.hx(s) for s in srcs]) if srcs else []
+    st['model_seconds'] = round(st['model_seconds'] + time.time() - t0, 2)
+    st['sampled_share'][label or prefix] = 1.0
+    for s, a, c in zip(srcs, io, res):
+        st['programs'] += 1
+        if c.startswith('unsupported'):
+            st['unsupported'] += 1
+            rep.bump('pipe:unsupported')
+            continue
+        st['answered'] += 1
+        if c != 'ok':
+            st['static_errors'] += 1
+        rep.bump('pipe-load:' + ('ok' if c == 'ok' else ' '.join(c.split(' ')[1:3])))
+        if a.startswith('panic') or a.startswith('crash'):
+            continue
+        if norm_static(a) != norm_static(c):
+            rep.disagreement(prefix + 'pipe:' + (s if isinstance(s, str) else s.hex()),
+                             'static stages (lexer+parser+lowering+analysis on the source text): implementation and pipeline model disagree',
+                             {'src': s if isinstance(s, str) else s.decode('utf-8', 'replace'), 'impl': a, 'pipe': c, 'load': 1})
+    if st['programs']:
+        st['supported_share'] = round(st['answered'] / st['programs'], 4)
+        st['seconds_per_1000'] = round(1000.0 * st['model_seconds'] / st['programs'], 2)
+    return res
+
+
+# Hand-written sources for the parts of the front end that the tree generator never prints: every literal
+# spelling, text blocks, numbers at the rounding boundaries, `std` rebound by each kind of binder, `tailstrict` in
+# and out of tail position, slices with omitted parts, object comprehensions with locals on both sides, `e {..}`
+# with a comprehension, named / default arguments, imports, and every kind of static error.
+PIPE_DIRECTED = [
+    'local std = {length(x): 7}; std.length(1)', 'local f(std) = std.length; f({length: 3})', '[std for std in [1, 2]]',
+    '{[std]: std for std in ["a"]}', '{local std = 5, a: std}', 'function(std) std', '(function(std) std + 1)(2)',
+    'local a = std.length([1]); local std = 3; std + a', '{a: std.length([1]), local std = {length(x): 9}}',
+    '[std.length(x) for x in [[1]] for std in [{length(y): 5}]]', '[std.length(x) for std in [{length(y): 5}] for x in [[1]]]',
+    '{[std.toString(std.length([k]))]: 1, local std = 1 for k in ["a"]}', '{local std = {length(x): "L"}, [k]: std.length(k) for k in ["a"]}',
+    '{[k]: std.length(k), local std = {length(x): "L"} for k in ["a"]}', '{local a = 1, local b = 1, [k]: 1, local b = 2, local a = 2 for k in []}',
+    'local f(x) = 1; (function() if false then 0 else f(error "strict") tailstrict)()', '{[k]: 1 for k in ["a"]} {[k]: 2 for k in ["b"]}',
+    'local f(a, b=std.length(a)) = b; f([1, 2])', 'local f(std, b=std.length) = b; f({length: 4})',
+    '{f(std): std.length}.f({length: 6})', '{local g(std) = std.length, a: g({length: 8})}.a',
+    'std.length(x=[1,2])', 'std.length([1,2]) tailstrict', 'std.length', 'std', 'std.foo(1)', 'std.length(1, 2)',
+    'std.sort([3,1,2])', 'std.sort([3,1,2], function(x) -x)', 'std.set([3,1,3])', 'std.__compare(1, 2)',
+    '(std.length)([1])', '(std).length([1])', 'std["length"]([1])', 'local obj = {std: 1}; obj.std', '{std: 2}.std',
+    '|||\n  text é\n   block\n|||', '|||-\n  stripped\n|||', '|||\n\ttab\n\n\tafter blank\n|||',
+    '{ "a b": 1, |||\n  k\n|||: 2, \'c\': 3, @"d\\e": 4, @\'f\'\'g\': 5 }', '{ a: 1 }.a + { "a": 2 }["a"]',
+    '"é😀\\n\\t\\\\\\"\'\\/\\b\\f\\r\\u00e9\\ud83d\\ude00"', '\'single "quoted"\'', '@"verb""atim\\n"',
+    '1e400', '1E3 + 1e+3 + 1e-3 + 1_000 + 1.5_0 + 0.1e1_0', '0.1 + 0.2', '123456789012345678901234567890',
+    '1.7976931348623157e308', '1.7976931348623158e308', '1.7976931348623159e308', '4.9e-324', '2.4703282292062327e-324',
+    '2.4703282292062328e-324', '9007199254740993', '9007199254740992.5', '0.' + '0' * 330 + '1', '1' + '0' * 310,
+    '1e-400', '5e-324', '0e999999999999999999', '1e99999999999999999999999', '0.1e-9223372036854775808',
+    '01', '1.', '1.e3', '1e', '1e+', '1_', '1__0', '"abc', '"\\q"', '"\\u12"', '"\\ud800"', '"\\ud800\\u0041"', '/* unterminated',
+    '1 /* c */ + // line\n 2 # hash\n + 3', '|||\nx\n|||', '|||\n  a\n b\n|||', '||| x\n a\n|||', '@', '~', '1 +', '(1', '[1, 2',
+    '{a: 1', '{a 1}', '{a: 1,, }', 'local x = 1 x', 'f(', 'if 1 then', '1 2', ')', '1 ||| 2', '1 +++ 2', 'a.1', '{a+(x): 1}',
+    '[1 for]', '{[k]: 1 for k in [1], a: 2}', '{[k]: 1, a: 2 for k in []}', '{[k]:: 1 for k in ["a"]}', '{assert true, [k]: 1 for k in ["a"]}',
+    'x', 'self', '$', 'super.a', '{a: super.b}', '{a: self.b, b: $.c, c: 1}', 'local x = 1, x = 2; x', '{a: 1, a: 2}', '{a: 1, "a": 2}',
+    '{local a = 1, local a = 2}', '{local a = 1, [k]: a, local a = 2 for k in []}', 'function(x, x) x', 'f(x=1, 2)', 'local f(a) = a; f(a=1, 2)',
+    '[x for x in y]', '[x for x in x]', '{local x = "a", [x]: 1}', '{local x = "a", [x]: 1 for k in [1]}', '{[k]: 1 for k in [k]}', 'local x = "o"; {local x = "i", [x]: x}',
+    'local x = "o"; {local x = "i", [x + k]: x for k in ["1"]}', '[x for y in [x] for x in [1]]', '{[x]: 1 for x in ["a"] if y}', '{[self.a]: 1}', '{a: {[self.a]: 1}}', '{a: 1, [self.a]: 2}.a',
+    'local f(a, b=2) = a + b; f(1) + f(1, 3) + f(b=5, a=1)', 'local f(a, b=a*2) = a + b; [f(1), f(b=1, a=2), f(1, b=0)]',
+    'local f(x) = x; f(1, 2)', 'local f(x) = x; f(y=1)', 'local f(x) = x; f(1, x=2)', 'local f(x) = x; f()', 'local f(x, y=x, z=y) = [x, y, z]; f(1, z=3)',
+    'import "x.libsonnet"', 'importstr "x.txt"', 'importbin "x.bin"', 'import |||\n  x\n|||', 'importstr |||\n  x\n|||', 'import "a" + "b"',
+    'import ("x")', 'importstr std.length', 'importbin 1', '[import "a", importstr x]',
+    '{a: 1} {a+: 2}', '{a: 1} + {a+: 2} {b: super.a}', '{a: 1} {[k]: super.a + 1 for k in ["b"]}', '{a: 1} {local x = 2, b: x, assert self.a == 1 : "bad"}',
+    '{a: 1} {assert self.a == 2 : "bad" + self.a}', '{a: 1} {} {b: 2} {a+: 1}', 'local o = {a: 1}; o {b: self.a} {c: super.b}',
+    '{[k + "x"]: v for k in ["a", "b"] for v in [1]}', '{local z = k, [k]: z + y, local y = "!" for k in ["a", "b"]}', '{[k]+: 1 for k in ["a"]}',
+    '{a: 1} + {[k]+: 1 for k in ["a"]}', '{["a"]: 1, [null]: 2, ["b"]:: 3, ["c"]::: 4}', '{a:: 1, b::: 2, c+:: 3, d+::: 4, e+: 5}', '{[1]: 1}',
+    '{f(x): x + 1, g(x, y=2):: x + y}.f(2)', '{f(x): x + 1}.f', 'local o = {f(x):: self.k + x, k: 1}; o.f(2) + (o {k: 10}).f(2)', '{"f"(x): x}.f(3)',
+    '[1, 2, 3][1:]', '[1, 2, 3][:2]', '[1, 2, 3][::2]', '[1, 2, 3][1::2]', '[1, 2, 3][:]', '[1, 2, 3][::]', '[1, 2, 3][0:2:1]', '[1, 2, 3][:2:]', '[1, 2, 3][1::]',
+    '"hello"[1:3]', '[1, 2, 3][-1:]', '[1, 2, 3][0:3:0]', '[1,2,3][1:2][0]', '{a: 1, b: "a" in super}', '{a: 1} {b: "a" in super, c: "z" in super}', '"a" in {a: 1}',
+    '"a" in super', '{a: 1} { b: super["a"], c: super.a }', '{a: "x" in super.y}', '{a: 1} {b: ("a" in super)}',
+    'local f(n) = if n == 0 then 0 else f(n - 1) tailstrict; f(700)', 'local f(n) = if n == 0 then 0 else (f(n - 1) tailstrict); f(700)',
+    'local f(n) = if n == 0 then 0 else 1 + f(n - 1) tailstrict; f(100)', 'local f(n, acc) = if n == 0 then acc else f(n - 1, acc + n) tailstrict; f(1000, 0)',
+    'local f(n, acc) = if n == 0 then acc else f(n - 1, acc + n); f(1000, 0)', 'local f(n) = local m = n - 1; assert n >= 0; if n == 0 then 0 else f(m) tailstrict; f(700)',
+    '(function(x) x)(1) tailstrict', 'local id(x) = x; local f(n) = if n == 0 then 0 else id(f(n - 1) tailstrict); f(600)',
+    'local f(x) = 1; [f(error "lazy") tailstrict][0]', 'local f(x) = 1; local g() = f(error "strict") tailstrict; g()', 'local f(x) = 1; local g() = (f(error "lazy") tailstrict); g()',
+    'local f(x) = 1; f(error "top-level call is not in tail position") tailstrict', 'local f(x) = 1; {g(): f(error "method body is a tail position") tailstrict}.g()',
+    'local f(x) = 1; (function() local y = 2; if true then f(error "strict") tailstrict)()', 'local f(x) = 1; (function() [f(error "lazy") tailstrict])()[0]',
+    'local f(x) = 1; (function() -f(error "operand: lazy") tailstrict)()', 'local f(x) = 1; (function() assert true : "m"; f(error "strict") tailstrict)()',
+    'local f(x, y=error "default strict") = 1; (function() f(1) tailstrict)()',
+    'if true then 1', 'if false then 1', 'if null then 1 else 2', 'if true then if false then 1 else 2', 'assert true; 1', 'assert false; 1', 'assert false : "msg"; 1',
+    'assert 1 == 1 : error "not evaluated"; 2', 'assert false : {a: 1}; 1', 'assert 1; 2', 'error "boom"', 'error {a: 1}', 'error 1 + 2',
+    '-1 + +2 + ~3', '!true || false && true', '1 < 2 && 2 <= 2 && 3 > 2 && 3 >= 3 && 1 != 2 && 1 == 1', '1 << 2 | 8 >> 1 & 7 ^ 3', '7 % 3 * 2 / 4 - 1',
+    '1 - 2 - 3', '2 * 3 % 4', '1 < 2 == true', '- - 1', '!!true', '-1 * -2', '1 - -1', '~ -1',
+    '[x * y for x in [1, 2] for y in [3, 4] if x != y]', '[[x, y] for x in [1, 2] if x > 1 for y in [x]]', '[1, 2,]', '[1 for x in [1, 2]]', '[x, for x in [1]]',
+    'local x = 1; local x = x + 1; x', 'local x = y, y = 1; x', 'local a = {b: {c: [1, {d: 2}]}}; a.b.c[1].d', '{a: {b: $.c, c: self.d, d: 1}, c: 2}',
+    'std.trace("t", 1) + std.trace("u", 2)', 'std.map(function(x) x * 2, [1, 2])', 'std.makeArray(3, function(i) i)', 'std.filter(function(x) x > 1, [1, 2, 3])',
+    'std.foldl(function(a, x) a + x, [1, 2, 3], 0)', 'std.join(",", ["a", "b"])', 'std.range(1, 3)', 'std.objectHasEx({a:: 1}, "a", true)',
+    'std.objectFieldsEx({a:: 1, b: 2}, false)', 'std.toString([1, "a"])', 'std.assertEqual(1, 1)', 'std.primitiveEquals(1, "1")', 'std.equals([1], [1])',
+    'std.member([1, 2], 2) && std.all([true]) && std.any([false, true]) && std.count([1, 1], 1) == 2', 'std.mapWithIndex(function(i, x) i + x, [1, 2])',
+    'std.mapWithKey(function(k, v) k + v, {a: "1"})', 'std.flatMap(function(x) [x, x], [1, 2])', 'std.filterMap(function(x) x > 1, function(x) x * 2, [1, 2, 3])',
+    'std.foldr(function(x, a) a + x, ["a", "b"], "")', 'std.type(std.length([]))', 'std.length(std.range(1, std.length([1, 2, 3])))',
+    'tailstrict', 'local tailstrict = 1; tailstrict', '1 tailstrict', '{a: 1}.a tailstrict', 'f() tailstrict tailstrict', '', ' ', '// only a comment',
+]
+# ... and sources that are not UTF-8 / contain unusual bytes
+PIPE_DIRECTED_BYTES = [b'\xef\xbb\xbf1', b'"\xff"', b'\xc3', b'"a\x00b"', b'1 \xc2\xa0+ 2', b'"\xed\xa0\x80"', b'"\xf4\x90\x80\x80"', b"'\xe2\x82'",
+                       b'/*\xff*/ 1', b'|||\n \xff\n|||', b'a\xcc\x81', b'\x00', b'"\xc0\xaf"', b'{"\xf0\x9f\x98\x80": 1}']
+
+_MUT_ALPHABET = list(b' \n\t(){}[],.;:+-*/%<>=!&|^~$@#"\'\\_0123456789abexyzstdlocalfunctionifthenelse') + [0xc3, 0xa9, 0xff, 0x80, 0xf0, 0x9f, 0x98, 0x80, 0]
+_MUT_WORDS = [b'std', b'local std = 1;', b' tailstrict', b'|||\n a\n|||', b'/*', b'self', b'super', b' in super', b'1e999', b'import ', b'$', b'function(std) ']
+
+
+def mutate_source(rng, b):
+    """1-3 byte-level edits of a source text: the malformed stream (lexical, syntax and static errors)."""
+    b = bytearray(b)
+    for _ in range(rng.choice([1, 1, 1, 2, 3])):
+        if not b:
+            break
+        k = rng.random()
+        i = rng.randrange(len(b))
+        if k < 0.3:
+            del b[i]
+        elif k < 0.6:
+            b.insert(i, rng.choice(_MUT_ALPHABET))
+        elif k < 0.75:
+            b[i] = rng.choice(_MUT_ALPHABET)
+        elif k < 0.85:
+            del b[i:]
+        elif k < 0.95:
+            j = rng.randrange(len(b))
+            b[i], b[j] = b[j], b[i]
+        else:
+            b[i:i] = rng.choice(_MUT_WORDS)
+    return bytes(b)
+
+
+def pipe_directed(rep, prefix, progs, n_mut, max_stack=500, fuel=6000):
+    """Sources that only exist as TEXT (no syntax tree, hence no S-expression route): the hand-written corpus
+    `PIPE_DIRECTED` and `n_mut` byte-level mutations of printed generated programs.  Implementation vs pipeline
+    model; a crash of the implementation is a violation (reported under the caller's property)."""
+    rng = rep.rng
+    srcs = [s.encode('utf-8') for s in PIPE_DIRECTED] + list(PIPE_DIRECTED_BYTES)
+    ndir = len(srcs)
+    for _ in range(n_mut):
+        p = rng.choice(progs)
+        srcs.append(mutate_source(rng, G.to_jsonnet(p, rng, 0.1, True).encode('utf-8')))
+    # a mutation can ask for a huge allocation (`std.range(5, 1000000000)`): the implementation runs under an address-space
+    # limit, and a crash where the model declines the same program as too large is exhaustion of memory, not a failure
+    io = [canon_impl(a) for a in vlib.impl([vlib.eval_line(s, max_stack=max_stack, traces=1) for s in srcs], mem_limit=4 * 1024 ** 3)]
+    po = check_pipe(rep, prefix + 'text:', srcs, io, None, max_stack=max_stack, fuel=fuel, traces=True,
+                    label='directed corpus + mutated sources')
+    for i, (s, a, c) in enumerate(zip(srcs, io, po)):
+        rep.bump('pipe-directed' if i < ndir else 'pipe-mutated')
+        rep.count(prefix + 'text:' + s.hex(), ' lex ' not in a)
+        if a.startswith('panic') or a.startswith('crash'):
+            if a.startswith('crash') and c is not None and c.startswith('unsupported') and b'large' in vlib.unhx(c.split(' ')[1]):
+                rep.bump('pipe-text:memory-exhaustion-skipped')
+                continue
+            rep.violation(prefix + 'text:' + s.hex(), 'source text crashed the implementation: ' + a[:200],
+                          {'src': s.decode('utf-8', 'replace'), 'srchex': s.hex(), 'impl': a})
+    return len(srcs)
+
+
+# ---------------------------------------------------------------------------
 # Shrinking of disagreeing programs
 # ---------------------------------------------------------------------------
 
@@ -133,10 +428,12 @@ def shrink(prog, still_bad, max_rounds=200):
     return cur
 
 
-def compare_cases(rep, progs, prefix, max_stack, traces, desc, fuel=6000):
+def compare_cases(rep, progs, prefix, max_stack, traces, desc, fuel=6000, pipe_share=1.0):
     """Programs through implementation and model under one frame limit: crashes are violations, differences are
     disagreements (replay record understood by the replay functions of c02/c04/c10)."""
     srcs, io, mo = run_pair(progs, max_stack=max_stack, fuel=fuel, traces=traces)
+    if pipe_share > 0:
+        check_pipe(rep, prefix, srcs, io, mo, max_stack=max_stack, fuel=fuel, traces=traces, share=pipe_share)
     for p, s, a, b in zip(progs, srcs, io, mo):
         key = prefix + s
         kind = a.split(' ')[2] if a.startswith('err eval') else a.split(' ')[0]
